@@ -1,6 +1,7 @@
 """C12 — thumbprints follow RFC 7638 and agree with key equality."""
 import base64, copy, hashlib, itertools, json
 import keys as K
+import jwsgen as G
 
 ID = "C12"
 RULE = ("jwk.thp / jwk.thp_buf (every len 0..70 for each of the five hashes, canaries) / jwk.eql on families of keys "
@@ -182,6 +183,18 @@ def run_convert(ctx, pool):
     lz = json.load(open(os.path.join(K.VERIF, "corpus", "keys", "leading_zero.json")))
     keys = [(n, k) for n, k in sorted(pool.items()) if k["kty"] != "oct"] + sorted(lz.items())
     keys += [(n + "-public", K.public(k)) for n, k in keys]
+    # symmetric keys go through the EVP_PKEY (HMAC) conversion: several lengths, and bytes that contain NUL
+    keys += [(n, pool[n]) for n in ("oct-16", "oct-32", "oct-64", "oct-1024") if n in pool]
+    keys += [("oct-with-NUL", {"kty": "oct", "k": G.b64u(b"ab\x00cd\x00\x00ef")}), ("oct-1-byte", {"kty": "oct", "k": "AA"})]
+    # RSA private keys with every subset of the CRT members (p, q, dp, dq, qi): whatever is present comes back unchanged
+    # and nothing appears that was absent - or the import is refused
+    rsa = pool["RSA-2048"]
+    crt = ("p", "q", "dp", "dq", "qi")
+    for mask in range(1 << 5):
+        sub = {m: rsa[m] for m in ("kty", "n", "e", "d")}
+        sub.update({m: rsa[m] for i, m in enumerate(crt) if mask >> i & 1})
+        keys.append(("RSA-2048 with CRT subset {%s}" % ",".join(m for i, m in enumerate(crt) if mask >> i & 1), sub))
+    keys.append(("RSA-2048 CRT without d", {m: rsa[m] for m in ("kty", "n", "e", "p", "q", "dp", "dq", "qi")}))
     ops = [("ossl.roundtrip", {"jwk": k}) for n, k in keys]
     real = ctx.real(ops)
     back = []
@@ -192,10 +205,19 @@ def run_convert(ctx, pool):
             continue
         j = r.get("jwk")
         if not r.get("imported") or not isinstance(j, dict):
+            if "CRT" in n:
+                ctx.count("convert:CRT-subset-refused")       # refusal of an incomplete CRT set is admitted; losing members is not
+                continue
             ctx.pfails.append(("convert:refused", "key %s does not survive conversion to OpenSSL and back" % n, "ossl.roundtrip", {"jwk": k}, r))
             continue
-        req = {"EC": ["kty", "crv", "x", "y"], "RSA": ["kty", "n", "e"]}[k["kty"]]
-        for m in req + (["d"] if "d" in k else []):
+        req = {"EC": ["kty", "crv", "x", "y"], "RSA": ["kty", "n", "e"], "oct": ["kty", "k"]}[k["kty"]]
+        if k["kty"] == "RSA":
+            extra_m = [m for m in ("p", "q", "dp", "dq", "qi") if m in j and m not in k]
+            if extra_m:
+                ctx.pfails.append(("convert:member", "members %s appear in the conversion of %s although the key did not have them" % (extra_m, n),
+                                   "ossl.roundtrip", {"jwk": k}, r))
+                continue
+        for m in req + [m_ for m_ in ("d", "p", "q", "dp", "dq", "qi") if m_ in k]:
             if j.get(m) != k.get(m):
                 ctx.pfails.append(("convert:member", "member %r of %s changes in conversion to OpenSSL and back: %r -> %r" % (m, n, k.get(m), j.get(m)),
                                    "ossl.roundtrip", {"jwk": k}, r))
